@@ -12,6 +12,8 @@ selectors, unequal lengths); proofs are by induction over the Rust loops' recurs
 namespace ArrowModel.C06
 open Spec
 
+/-! ## (1) the algebra equals set operations on positions -/
+
 /-- **`FromIterator<RowSelector>` / `From<Vec<RowSelector>>`** (dropping zero-length
 selectors and merging neighbours) never changes which rows are selected nor the domain. -/
 theorem fromIter_denotation (s : List Sel) : mask (fromIter s) = mask s := mask_fromIter s
@@ -37,6 +39,26 @@ example : mask (intersectSel [(2, true), (4, false), (2, true)] [(1, true), (1, 
     zipTail (· && ·) (mask [(2, true), (4, false), (2, true)]) (mask [(1, true), (1, false), (7, true)]) :=
   intersection_pointwise _ _
 
+/-- `intersection` as a set of positions: inside the common domain, a row is in the
+intersection iff it is in both selections. -/
+theorem intersection_positions (l r : List Sel) (p : Nat) (hl : p < domain l) (hr : p < domain r) :
+    p ∈ positions (intersectSel l r) ↔ p ∈ positions l ∧ p ∈ positions r := by
+  unfold positions domain at *
+  simp only [mem_trueIdx, Nat.zero_le, true_and, Nat.sub_zero, intersection_pointwise]
+  rw [zipTail_getElem? _ _ _ _ hl hr, List.getElem?_eq_getElem hl, List.getElem?_eq_getElem hr]
+  simp
+
+/-- `union` as a set of positions: inside the common domain, a row is in the union iff it is
+in one of the selections. -/
+theorem union_positions (l r : List Sel) (p : Nat) (hl : p < domain l) (hr : p < domain r) :
+    p ∈ positions (unionSel l r) ↔ p ∈ positions l ∨ p ∈ positions r := by
+  unfold positions domain at *
+  simp only [mem_trueIdx, Nat.zero_le, true_and, Nat.sub_zero, union_pointwise]
+  rw [zipTail_getElem? _ _ _ _ hl hr, List.getElem?_eq_getElem hl, List.getElem?_eq_getElem hr]
+  simp
+
+example : (3 : Nat) < domain [(2, true), (4, false)] ∧ (3 : Nat) < domain [(5, false)] := by decide
+
 /-- **`RowSelection::split_off(n)`** partitions the selection at row `n`: the returned head
 denotes the first `n` rows, what remains in `self` denotes the rest — nothing lost, nothing
 duplicated, for every `n` (also `0` and beyond the end). -/
@@ -53,9 +75,89 @@ theorem andThen_composes (first second out : List Sel)
   have := andThenGo_mask first second 0 out h
   simpa using this
 
-/-- non-vacuity: the doc-comment example of `and_then` does not panic -/
+/-- non-vacuity: a four-run selection composed with a three-run one does not panic -/
 example : andThenSel [(2, true), (3, false), (1, true), (2, false)] [(1, false), (2, true), (2, false)] =
     some [(2, true), (1, false), (3, true), (2, false)] := by
   simp [andThenSel, andThenGo, andThenTail]
+
+/-- **`RowSelection::offset(k)`** (`offset_selectors`) drops exactly the first `k` selected
+positions and keeps all later ones, for every `k` (including `0` and `k ≥ row_count`). -/
+theorem offset_drops (s : List Sel) (k : Nat) :
+    positions (offsetSel s k) = (positions s).drop k := positions_offsetSel s k
+
+/-- **`RowSelection::limit(k)`** (`limit_selectors`) keeps exactly the first `k` selected
+positions (and cuts the domain right after the `k`-th one). -/
+theorem limit_keeps (s : List Sel) (k : Nat) :
+    positions (limitSel s k) = (positions s).take k := positions_limitSel s k
+
+/-- `limit` at mask level: the result is the prefix of the selection ending at its `k`-th
+selected row. -/
+theorem limit_denotation (s : List Sel) (k : Nat) :
+    mask (limitSel s k) = keepFirst k (mask s) := mask_limitSel s k
+
+/-- **`RowSelection::trim`** removes only trailing unselected rows: same positions. -/
+theorem trim_keeps_positions (s : List Sel) : positions (trimSel s) = positions s :=
+  positions_trimSel s
+
+/-- **`row_count` / `skipped_row_count`** count the selected positions and the rest of the
+domain. -/
+theorem counts_exact (s : List Sel) :
+    RS.rowCount (.sels s) = (positions s).length ∧
+    RS.skippedRowCount (.sels s) + RS.rowCount (.sels s) = domain s := by
+  unfold positions domain
+  rw [trueIdx_length]
+  show sumN (s.filter (fun x => !x.2)) = _ ∧ sumN (s.filter (fun x => x.2)) + sumN (s.filter (fun x => !x.2)) = _
+  rw [sumN_filter_select]
+  exact ⟨rfl, sumN_filter_skip s⟩
+
+/-! ## (2) constructor invariants -/
+
+/-- **`From<Vec<RowSelector>>` / `collect()` establish the documented invariants**: no
+selector of 0 rows, consecutive selectors alternate.  (`intersection` and `union` end in the
+same `collect()`, so their results satisfy them too.) -/
+theorem fromIter_normal' (s : List Sel) : Normal (fromIter s) := fromIter_normal s
+
+theorem intersection_union_normal (l r : List Sel) :
+    Normal (intersectSel l r) ∧ Normal (unionSel l r) :=
+  ⟨fromIter_normal _, fromIter_normal _⟩
+
+/-! ## (3) reader loop -/
+
+/-- **The selector-cursor loop of `ParquetRecordBatchReader::next_inner`**, drained: for any
+selection that fits the rows available (`domain s ≤ total`) and any batch size `b > 0`, no
+error occurs, the concatenation of the produced batches is exactly the selected positions in
+order (the tape restricted to `positions s`), and every batch has between 1 and `b` rows. -/
+theorem reader_selectors_exact (b total : Nat) (hb : 0 < b) (s : List Sel)
+    (hfit : domain s ≤ total) :
+    ∃ batches, readAll b total (total + 2) (.selectors s) 0 = some batches ∧
+      batches.flatten = positions s ∧ ∀ x ∈ batches, 0 < x.length ∧ x.length ≤ b := by
+  unfold domain at hfit
+  rw [mask_length] at hfit
+  refine readAll_selectors b total hb (total + 2) s 0 (by omega) ?_
+  have h1 := trueIdx_length 0 (mask s)
+  have h2 := sumN_filter_skip s
+  have h3 := mask_length s
+  omega
+
+example : domain [(3, true), (4, false), (2, true), (5, false)] ≤ 20 := by decide
+
+/-! ## (5) offset / limit across row groups -/
+
+/-- **Distributing a global `(offset, limit)` through `RowBudget` across row groups equals
+applying it to the concatenation.**  `gs` are the rows of each row group that survive
+selection and predicates; per row group the plan keeps `(g.drop offset).take limit`
+(`offset_drops`, `limit_keeps`) and the budget is advanced with
+`RowBudget::advance(rows_before, rows_after(rows_before))`, stopping when
+`RowBudget::is_exhausted`.  Uses the regenerated constants of `RowBudget`. -/
+theorem budget_distribution {α} (offset limit : Option Nat) (gs : List (List α)) :
+    (distribute ⟨offset, limit⟩ gs).flatten =
+      takeOpt limit (gs.flatten.drop (offset.getD 0)) := distribute_flatten _ gs
+
+/-- each row group's share has exactly `RowBudget::rows_after` rows -/
+theorem budget_share_length {α} (bd : Budget) (g : List α) :
+    (applyBudget bd g).length = bd.rowsAfter g.length := applyBudget_length bd g
+
+example : (distribute ⟨some 3, some 4⟩ [[0, 1], [2, 3, 4], [5, 6, 7, 8]]).flatten = [3, 4, 5, 6] := by
+  decide
 
 end ArrowModel.C06
